@@ -45,7 +45,7 @@ add('C17', 'property-based testing: validity predicate over outcomes (normal ret
 add('C03', 'property-based testing: pastified online monitor vs reference semantics on every prefix, with forced siblings of different horizon (Hypothesis)',
     'For generated bounded-future formulas every update i >= h of the pastified monitor is compared with R-dt(phi, w[0..i])[i-h]; pure-past specifications must be unchanged '
     'by pastify(); unbounded future must make pastify() raise RTAMTException. Lanes for siblings of different horizon, past operators over future operands (warm-up), pure-past specifications and unit spellings.',
-    'Trusted: vlib/refsem.py and the harness horizon function; outputs for i < h are unconstrained.',
+    'Trusted: vlib/refsem.py and the harness horizon function; outputs for i < h are unconstrained. One open finding (KNOWN_FINDINGS.txt): a partial function applied to an operand that pastify() delays raises during the warm-up; reported as KNOWN-FINDING under a key that only matches an exception of the log / ln / sqrt operation at an update before the horizon.',
     'DESIGN.md section 5 C03')
 add('C14', 'property-based testing / grammar-based fuzzing: generated, mutated and random-token specification texts against an independent tokenizer + recogniser and an exception-type oracle (Hypothesis)',
     'Tens of thousands of texts per run (derivable files with aliases/declarations/constants, token-level mutations incl. illegal characters, trailing garbage, '
@@ -102,6 +102,6 @@ add('C19', 'property-based testing: differential check between the dense-time an
     'DESIGN.md section 5 C19')
 add('C05', 'property-based testing over generated update schedules (common, per-sample, per-variable independent cuts; exhaustive 2^(n-1) schedules for small one-variable signals) against the grid reference and against the single-update run (Hypothesis + enumeration)',
     'Concatenated outputs must be well-formed with non-decreasing time stamps, equal R-ct wherever they cover (shifted by the horizon after pastify) and agree between schedules. '
-    'Lanes: unbounded, bounded and pastified operators under arbitrary schedules and in one update; exhaustive schedules for a fixed family of formulas on small one-variable signals.',
-    'Trusted: vlib/refsem.py ct_cells; the output covers the span between its first and last time stamp; signals start together at 0.',
+    'Lanes: unbounded, bounded and pastified operators under arbitrary schedules and in one update; exhaustive schedules for a fixed family of formulas on small one-variable signals; skewed, refilled and edited caller lists; start instants t0 > 0; operands that start at different instants; integer time stamps beyond 2^53.',
+    'Trusted: vlib/refsem.py ct_cells; the output covers the span between its first and last time stamp; signals start together (at 0, or at t0 > 0 in the shifted lanes; the lane staggered lets them start at different instants under formulas without temporal operators). One open finding (KNOWN_FINDINGS.txt): with t0 > 0 a past operator above a bounded past operator reads its operand from t0 + a on; filed under the known key only if the same case moved to start at 0 passes.',
     'DESIGN.md section 5 C05')
